@@ -38,7 +38,8 @@ CONSTANTS Procs, Progs,        \* Progs[p] = sequence of ops in {"Send","Write",
           HoldProcess,         \* "none" | "R"
           CbWrites,            \* callbacks that re-enter a writing call: subset of {"process"}
           LeakOnFail,          \* BOOLEAN
-          LeakTL               \* BOOLEAN: a Send that finds its context done returns without releasing thresholdLock
+          LeakTL,              \* BOOLEAN: a Send that finds its context done returns without releasing thresholdLock
+          RecursiveRead        \* BOOLEAN: a getter takes the Broker's read lock twice (a helper that locks, called under the lock)
 
 VARIABLES readers, writer, pendingW, gl, stack, pcnt,
           tlr, tlw           \* graph.thresholdLock of the event type: readers per process, writer
@@ -123,7 +124,9 @@ FailStep(p) ==
 
 ReadStep(p) ==
   /\ stack[p] # <<>> /\ Top(p).op = "Read"
-  /\ \/ Top(p).pc = "start" /\ RLock(p) /\ Set(p, "locked") /\ UNCHANGED <<writer, pendingW, gl, pcnt>>
+  /\ \/ Top(p).pc = "start" /\ RLock(p) /\ Set(p, IF RecursiveRead THEN "outer" ELSE "locked") /\ UNCHANGED <<writer, pendingW, gl, pcnt>>
+     \/ Top(p).pc = "outer" /\ RLock(p) /\ Set(p, "inner") /\ UNCHANGED <<writer, pendingW, gl, pcnt>>      \* blocks behind a waiting writer
+     \/ Top(p).pc = "inner" /\ RUnlock(p) /\ Set(p, "locked") /\ UNCHANGED <<writer, pendingW, gl, pcnt>>
      \/ Top(p).pc = "locked" /\ RUnlock(p) /\ Pop(p) /\ UNCHANGED <<writer, pendingW, gl, pcnt>>
 
 (* RemoveNode / RemovePipelineAndNodes *)
